@@ -478,18 +478,50 @@ func vfCorpusC18() []*vfWorldCase {
 }
 
 func vfGenC09(r *vfRand, id int) *vfWorldCase {
-	cs := vfGenC07(r, id)
-	cs.Kind = "cookie-opacity"
-	// tampering with what the deployment emitted: none of it may be accepted as content
-	for i := 1 + r.intn(3); i > 0; i-- {
-		cs.Script.Actions = append(cs.Script.Actions, vfAction{Kind: "tamper", Browser: 0,
-			Tamper: vfPick(r, "flip", "truncate", "swap", "junk"), Name: vfPick(r, "m", "a", "r", "a0", "a1", "r0"), Name2: vfPick(r, "a", "r", "m", "a0")},
-			vfGated(0, 0, "/app", 1))
+	if r.chance(1, 3) {
+		cs := vfGenC07(r, id)
+		cs.Kind = "cookie-opacity"
+		for i := 1 + r.intn(3); i > 0; i-- {
+			cs.Script.Actions = append(cs.Script.Actions, vfAction{Kind: "tamper", Browser: 0,
+				Tamper: vfPick(r, "flip", "truncate", "swap", "junk"), Name: vfPick(r, "m", "a", "r", "a0", "a1", "r0"), Name2: vfPick(r, "a", "r", "m", "a0")},
+				vfGated(0, 0, "/app", 1))
+		}
+		return cs
 	}
+	// a stable session (no refresh due) whose cookies the deployment has already seen in ordinary
+	// requests; then what it emitted is modified, renamed or moved between two browsers
+	cfg := vfWorldCfg{PKCE: r.chance(1, 2), ForceHTTPS: r.chance(1, 2), EndSession: true, GraceSec: 60}
+	cs := &vfWorldCase{ID: id, Kind: "cookie-tamper", Script: vfScript{Cfg: cfg, Browsers: 2}}
+	mk := func() *vfTokenScript {
+		sc := vfOkScript(vfSizedTok(r, vfSizes[r.intn(len(vfSizes))], r.chance(2, 3)))
+		sc.RefreshLen = []int{0, 24, 2600, 5200}[r.intn(4)]
+		return sc
+	}
+	acts := vfLogin(0, 0, "/app", mk())
+	acts = append(acts, vfLogin(1, 0, "/other", mk())...)
+	acts = append(acts, vfGated(0, 0, "/app", 1), vfGated(1, 0, "/other", 1), vfGated(0, 0, "/app/2", 1))
+	for i := 1 + r.intn(4); i > 0; i-- {
+		a := vfAction{Kind: "tamper", Browser: 0, Tamper: vfPick(r, "swap", "swap", "copy", "flip", "truncate", "junk"),
+			Name: vfPick(r, "m", "a", "r", "a0", "a1", "r0", "r1"), Name2: vfPick(r, "a", "r", "m", "a0", "r0", "a1"), From: 1}
+		acts = append(acts, a, vfGated(0, 0, "/app", 1))
+		if r.chance(1, 3) {
+			acts = append(acts, vfLogin(0, 0, "/app", mk())...)
+			acts = append(acts, vfGated(0, 0, "/app", 1))
+		}
+	}
+	cs.Script.Actions = acts
 	return cs
 }
 
-func vfCorpusC09() []*vfWorldCase { return vfCorpusC07() }
+func vfCorpusC09() []*vfWorldCase {
+	sc := vfOkScript(vfPlainTok("u@example.com", 3600))
+	swap := func(n1, n2 string) *vfWorldCase {
+		acts := append(vfLogin(0, 0, "/app", sc), vfGated(0, 0, "/app", 1),
+			vfAction{Kind: "tamper", Browser: 0, Tamper: "swap", Name: n1, Name2: n2}, vfGated(0, 0, "/app", 1))
+		return &vfWorldCase{Kind: "corpus", Script: vfScript{Cfg: vfWorldCfg{EndSession: true, GraceSec: 60}, Browsers: 1, Actions: acts}}
+	}
+	return append(vfCorpusC07(), swap("a", "r"), swap("m", "a"), swap("r", "m"))
+}
 
 // ---------------------------------------------------------------- C10: identity headers
 
